@@ -486,6 +486,14 @@ def gen_remove(rng, cfg, w: World, opid: int, invalid: bool, steer: bool):
         if cands:
             nm = rng.choice(cands)
             return {"id": opid, "k": "remove", "node": nm.uid, "keep_children": True}
+    # clone groups with one member below another: un-nesting all of them at once is
+    # where per-clone checks and the final structure differ
+    nested = [n for n in mt.nodes()
+              if any(o is not n and (o.is_descendant_of(n) or n.is_descendant_of(o))
+                     for o in mt.group_of(n))]
+    if nested and rng.random() < (0.7 if (steer or invalid) else 0.25):
+        return {"id": opid, "k": "remove", "node": rng.choice(nested).uid,
+                "keep_children": True, "with_clones": True}
     # prefer clones sometimes
     clones = [n for n in mt.nodes() if len(mt.group_of(n)) > 1]
     if clones and rng.random() < 0.4:
